@@ -125,8 +125,8 @@ class JsonlTraceDriver(TraceDriver):
 
         path = self._path
 
-        # Single file mode: reuse the main file handle
-        if path.suffix:
+        # Single file mode (same test as _open_file): reuse the main file handle
+        if path.suffix and not path.is_dir():
             if not self._file:
                 self._open_file(run_space_launch_id)
             self._run_space_file = self._file
